@@ -33,6 +33,28 @@ def reserved_names():
     return set(naming._get_reserved_names())
 
 
+def statement_reserved():
+    """The set the STATEMENT forbids ("never shadow a public Vector/Table method or property"), computed
+    from the classes themselves, independently of serif.naming: every public attribute name that is a
+    method (instance, class or static), another callable, or a property - lower-cased."""
+    import importlib
+    import inspect
+    import sys
+    if REPO_SRC not in sys.path:
+        sys.path.insert(0, REPO_SRC)
+    out = set()
+    for modname, clsname in (('serif.vector', 'Vector'), ('serif.table', 'Table')):
+        cls = getattr(importlib.import_module(modname), clsname)
+        for name in dir(cls):
+            if name.startswith('_'):
+                continue
+            static = inspect.getattr_static(cls, name, None)
+            if isinstance(static, (property, classmethod, staticmethod)) or callable(static) \
+                    or callable(getattr(cls, name, None)):
+                out.add(name.lower())
+    return out
+
+
 def interpret():
     """Returns (final language DFA, may_return_none, notes)."""
     path = os.path.join(REPO_SRC, 'serif', 'naming.py')
@@ -208,7 +230,7 @@ def obligations(pid, tier):
     ident = regex_to_dfa('^[a-z][a-z0-9_]*$')
     checks = [
         ('lang:identifier', F.minus(ident), 'result is not of the form [a-z][a-z0-9_]* (valid lower-case identifier)'),
-        ('lang:not-reserved', F.inter(DFA.finite(R)), 'result shadows a public Vector/Table attribute'),
+        ('lang:not-reserved', F.inter(DFA.finite(R | statement_reserved())), 'result shadows a public Vector/Table attribute'),
         ('lang:not-indexed-accessor', F.inter(regex_to_dfa('^.+__[0-9]+$')), 'result looks like a generated name__N accessor'),
         ('lang:not-positional-accessor', F.inter(regex_to_dfa('^col[0-9]+_$')), 'result looks like a positional colN_ accessor'),
         ('lang:outer-underscores-stripped', F.inter(regex_to_dfa('^_.*$')), 'result starts with an underscore'),
